@@ -894,7 +894,10 @@ class GroupSubtreeCopy(Contract):
         for pg in (getattr(ent, "property_groups", None) or []):
             pgs.append((pg.name, sorted(ent.get_entity(u)[0].name for u in (pg.properties or []))))
         verts = getattr(ent, "vertices", None)
-        return (type(ent).__name__, ent.name if not getattr(ent, "_is_copy_root", False) else "<root>", None if verts is None else repr(np.asarray(verts).tolist()), sorted(pgs), sorted(kids, key=repr))
+        # the entity's type as the copy carries it (rebuilt from the source's when the target workspace does not hold it yet)
+        et = getattr(ent, "entity_type", None)
+        tdesc = tuple((a, repr(getattr(et, a, None))) for a in sorted(set(getattr(type(et), "_attribute_map", {}).values()) - {"uid"}) if isinstance(getattr(et, a, None), (str, bool, int, float, type(None))))
+        return (type(ent).__name__ + repr(tdesc), ent.name if not getattr(ent, "_is_copy_root", False) else "<root>", None if verts is None else repr(np.asarray(verts).tolist()), sorted(pgs), sorted(kids, key=repr))
 
     @staticmethod
     def _size(tree):
@@ -923,7 +926,12 @@ class GroupSubtreeCopy(Contract):
                 q = Points.create(ws, name="q", vertices=v + 2.0, parent=sub)
                 q.add_data({"z": {"values": np.arange(4.0) * 3}})
                 ContainerGroup.create(ws, name="hollow", parent=sub)
-                far = ContainerGroup.create(other, name="far")
+                # group types whose two content permissions differ
+                g.entity_type.allow_delete_content = False
+                sub.entity_type.description = "a described type"
+                from geoh5py.groups import NoTypeGroup
+
+                far = NoTypeGroup.create(other, name="far-away")  # the other workspace does not hold the container type yet
                 parent = {"same-parent": None, "another-group": elsewhere, "other-workspace": other, "group-of-other-workspace": far, "itself": g, "own-subgroup": sub}[case["target"]]
                 want = self._tree(g)
                 target_ws = other if case["target"] in ("other-workspace", "group-of-other-workspace") else ws
@@ -951,7 +959,7 @@ class GroupSubtreeCopy(Contract):
                     def prune(t):
                         kids = [k if k[0] == "data" else prune(k) for k in t[4]]
                         kids = [k for k in kids if k is not None]
-                        return None if (t[0].endswith("Group") and not kids and t is not exp) else (t[0], t[1], t[2], t[3], kids)
+                        return None if ("Group(" in t[0] and not kids and t is not exp) else (t[0], t[1], t[2], t[3], kids)
 
                     exp = prune(exp)
                 if got != exp:
